@@ -40,7 +40,7 @@ fn claim(viol: &Violation, op: &Op, pre: &World, _info: &StepInfo) -> Option<Vio
     let m = &pre.model;
     let special = |l: &Lid| m.exists_live(*l) && matches!(m.k(*l), K::Attr | K::Ns);
     let is_map_op = op.is_element_only() && !matches!(op, Op::SetElementName { .. })
-        || matches!(op, Op::AppendAttrNode { .. } | Op::AppendNsNode { .. })
+        || matches!(op, Op::AppendAttrNode { .. } | Op::AppendNsNode { .. } | Op::AppendNamespace { .. })
         || (matches!(op, Op::AnyAppend { .. } | Op::Detach { .. } | Op::Remove { .. }) && op.node_args().iter().any(special));
     if !is_map_op {
         return None;
